@@ -47,12 +47,20 @@ class Bundle(CborArray):
 
     def post_dissect(self, s):
         # Special handling for admin payload
-        if self.primary and self.primary.getfieldval('bundle_flags') & PrimaryBlock.Flag.PAYLOAD_ADMIN:
+        flags = self.primary.getfieldval('bundle_flags') if self.primary else 0
+        # A fragment carries only a slice of the encoded record
+        if flags & PrimaryBlock.Flag.PAYLOAD_ADMIN and not flags & PrimaryBlock.Flag.IS_FRAGMENT:
             for blk in self.blocks:
                 blk_data = blk.getfieldval('btsd')
                 if (blk.type_code == Bundle.BLOCK_TYPE_PAYLOAD
                         and blk_data is not None):
-                    pay = AdminRecord(blk_data)
+                    try:
+                        pay = AdminRecord(blk_data)
+                        if bytes(pay) != bytes(blk_data):
+                            raise ValueError('Record does not re-encode identically')
+                    except Exception:
+                        # Keep the data opaque when the record cannot be represented
+                        continue
                     blk.remove_payload()
                     blk.add_payload(pay)
 
